@@ -272,6 +272,126 @@ def call_name(c):
         f.id if isinstance(f, ast.Name) else None)
 
 
+def _inf_domain_thickness(f, N, gap):
+    """abstract run of Optic.set_thickness over {FIN, NINF, PINF, NAN}"""
+    FIN, NINF, PINF, NAN = 'FIN', 'NINF', 'PINF', 'NAN'
+
+    def add(a, b):
+        if NAN in (a, b):
+            return NAN
+        if a == FIN:
+            return b
+        if b == FIN:
+            return a
+        return a if a == b else NAN
+
+    def neg(a):
+        return {NINF: PINF, PINF: NINF}.get(a, a)
+
+    pos = [NINF] + [FIN] * (N - 1)
+    env = {'value': FIN, 'surface_number': gap}
+    written = [None] * N
+
+    def idx(e):
+        if isinstance(e, ast.Constant) and isinstance(e.value, int):
+            return e.value
+        if isinstance(e, ast.Name) and isinstance(env.get(e.id), int):
+            return env[e.id]
+        if isinstance(e, ast.BinOp) and isinstance(e.op, (ast.Add, ast.Sub)):
+            a, b = idx(e.left), idx(e.right)
+            return a + b if isinstance(e.op, ast.Add) else a - b
+        raise Inconclusive(f'index {unparse(e)}')
+
+    def ev(e):
+        if isinstance(e, ast.Name):
+            v = env.get(e.id)
+            if v is None:
+                raise Inconclusive(f'name {e.id}')
+            if isinstance(v, int):
+                return FIN
+            return v
+        if isinstance(e, ast.Constant) and isinstance(e.value, (int, float)):
+            return FIN
+        if isinstance(e, ast.Subscript) and isinstance(e.value, ast.Name) \
+                and env.get(e.value.id) == 'POS':
+            if isinstance(e.slice, ast.Slice):
+                raise Inconclusive('slice read')
+            return pos[idx(e.slice)]
+        if isinstance(e, ast.BinOp) and isinstance(e.op, (ast.Add, ast.Sub)):
+            a, b = ev(e.left), ev(e.right)
+            return add(a, b if isinstance(e.op, ast.Add) else neg(b))
+        if isinstance(e, ast.UnaryOp) and isinstance(e.op, ast.USub):
+            return neg(ev(e.operand))
+        raise Inconclusive(f'expression {unparse(e)[:50]}')
+
+    def targets(t):
+        """indices of pos a store / augmented store addresses"""
+        if isinstance(t, ast.Name) and env.get(t.id) == 'POS':
+            return list(range(N))
+        if isinstance(t, ast.Subscript) and isinstance(t.value, ast.Name) \
+                and env.get(t.value.id) == 'POS':
+            if isinstance(t.slice, ast.Slice):
+                lo = idx(t.slice.lower) if t.slice.lower else 0
+                hi = idx(t.slice.upper) if t.slice.upper else N
+                return list(range(lo, hi))
+            return [idx(t.slice)]
+        return None
+
+    def run(body):
+        for st in body:
+            if isinstance(st, ast.Pass) or (
+                    isinstance(st, ast.Expr) and isinstance(st.value,
+                                                            ast.Constant)):
+                continue
+            if isinstance(st, ast.Assign) and len(st.targets) == 1:
+                t = st.targets[0]
+                if isinstance(t, ast.Name) and unparse(st.value) == \
+                        'self.surface_group.positions':
+                    env[t.id] = 'POS'
+                    continue
+                tg = targets(t)
+                if tg is not None:
+                    v = ev(st.value)
+                    for k in tg:
+                        pos[k] = v
+                    continue
+                if isinstance(t, ast.Name):
+                    env[t.id] = ev(st.value)
+                    continue
+            if isinstance(st, ast.AugAssign) and isinstance(
+                    st.op, (ast.Add, ast.Sub)):
+                tg = targets(st.target)
+                if tg is not None:
+                    v = ev(st.value)
+                    if isinstance(st.op, ast.Sub):
+                        v = neg(v)
+                    for k in tg:
+                        pos[k] = add(pos[k], v)
+                    continue
+            if isinstance(st, ast.If) and isinstance(st.test, ast.Compare) \
+                    and len(st.test.ops) == 1:
+                a = idx(st.test.left)
+                b = idx(st.test.comparators[0])
+                op = st.test.ops[0]
+                c = {ast.Eq: a == b, ast.NotEq: a != b, ast.Lt: a < b,
+                     ast.LtE: a <= b, ast.Gt: a > b,
+                     ast.GtE: a >= b}.get(type(op))
+                if c is None:
+                    raise Inconclusive('branch ' + unparse(st.test))
+                run(st.body if c else st.orelse)
+                continue
+            if isinstance(st, ast.For) and 'geometry.cs.z' in unparse(st):
+                # write-back loop: cs.z of surface k = positions[k]
+                for k in range(N):
+                    written[k] = pos[k]
+                continue
+            raise Inconclusive(f'statement {unparse(st)[:60]}')
+    run(f.node.body)
+    if any(w is None for w in written):
+        raise Inconclusive('no write-back loop')
+    return written
+
+
 def thickness_edit(ctx):
     P = ctx.P
     res = Result('THICKNESS-EDIT', 'set_thickness(value, s) executed '
@@ -333,6 +453,26 @@ def thickness_edit(ctx):
         else:
             res.fail(ctx.finding('THICKNESS-EDIT', f, f.node, msg,
                                  construct='set_thickness rigid shift'))
+    # infinite object: the same edit in the domain {finite, -inf, +inf, nan}
+    # (p0 = -inf, every other vertex and the value finite): no vertex may
+    # become nan / infinite except the object, and only when it is not the
+    # edited gap
+    for s_ in range(0, N - 1):
+        try:
+            out = _inf_domain_thickness(f, N, s_)
+        except Inconclusive as e:
+            raise AnalysisError(f'set_thickness (infinite object): {e}')
+        want = ['FIN' if s_ == 0 else 'NINF'] + ['FIN'] * (N - 1)
+        if out == want:
+            res.ok(f'gap {s_}, object at infinity: vertices stay finite'
+                   + (' and the object becomes finite' if s_ == 0 else ''))
+        else:
+            res.fail(ctx.finding(
+                'THICKNESS-EDIT', f, f.node,
+                f'editing gap {s_} of a lens whose object is at infinity '
+                f'leaves the vertices {out} (expected {want}): inf - inf in '
+                f'the rigid shift / re-zeroing',
+                construct='set_thickness with the object at infinity'))
     # get_thickness consistent with delta definition
     g = P.func('SurfaceGroup.get_thickness')
     res.saw(g)
@@ -1180,5 +1320,53 @@ def derived_sync_rule(ctx):
     from .common import derived_sync
     return derived_sync(ctx, 'DERIVED-SYNC')
 
-RULES = [derived_sync_rule, arg_wiring_rule, init_stores, scalar_conv, placement, thickness_edit, media_chain, one_stop,
+def insertion(ctx):
+    """add_surface(index=k) on a lens that already has surfaces behind k is an
+    edit of the prescription: the new vertex must go where the surface it
+    displaces was, the surfaces behind it move back by its thickness and the
+    next surface's material_pre becomes the new material_post.  Structural
+    necessary condition: SurfaceGroup.add_surface / the factory do something
+    that depends on 'index < number of surfaces' and that writes the following
+    vertices and the following material_pre."""
+    P = ctx.P
+    res = Result('INSERTION', 'inserting a surface in front of existing ones '
+                 'keeps the table consistent: later vertices shifted by its '
+                 'thickness, media re-linked, vertex placed from the gap it '
+                 'splits (not from the thickness of the last surface added)')
+    f = P.func('SurfaceGroup.add_surface')
+    g = P.func('SurfaceFactory._configure_cs')
+    res.saw(f), res.saw(g)
+    ins = [c for c in ast.walk(f.node) if isinstance(c, ast.Call) and
+           isinstance(c.func, ast.Attribute) and c.func.attr == 'insert']
+    if not ins:
+        raise AnalysisError('add_surface: insert call not found')
+    src = unparse(f.node, 100000)
+    shifts = [n for n in ast.walk(f.node)
+              if isinstance(n, (ast.AugAssign, ast.Assign)) and
+              '.cs.z' in unparse(n.target if isinstance(n, ast.AugAssign)
+                                 else n.targets[0])]
+    relink = [n for n in ast.walk(f.node) if isinstance(n, ast.Assign) and
+              unparse(n.targets[0]).endswith('.material_pre')]
+    stale = 'self.last_thickness' in unparse(g.node, 100000) and not any(
+        isinstance(n, ast.Compare) and 'num_surfaces' in unparse(n)
+        for n in ast.walk(g.node))
+    if shifts and relink and not stale:
+        res.ok('insertion shifts the later vertices and re-links the media')
+    else:
+        res.fail(ctx.finding(
+            'INSERTION', f, ins[0],
+            'add_surface(index=k) in front of existing surfaces only does '
+            'surfaces.insert(k, new): the vertex is computed as '
+            'positions[k-1] + last_thickness (the thickness of the most '
+            'recently added surface, normally the image: 0), the thickness '
+            'of the inserted surface is dropped (nothing behind it moves) '
+            'and material_pre of the next surface is not re-linked; '
+            'splitting 5 mm of glass into 2 + 3 mm by a dummy plane gives '
+            'vertices [0, 2, 7, 13, ...] instead of [0, 2, 5, 11, ...] or '
+            'all rays NaN, depending on the order of the two edit calls',
+            construct='insertion in front of existing surfaces'))
+    return res
+
+
+RULES = [insertion, derived_sync_rule, arg_wiring_rule, init_stores, scalar_conv, placement, thickness_edit, media_chain, one_stop,
          setter_writes, pickup, solve]
